@@ -1364,9 +1364,20 @@ func (in *inliner) inlineCallMode(call *ast.CallExpr, stack []*types.Func, sites
 			for {
 				switch y := ast.Unparen(e).(type) {
 				case *ast.SelectorExpr:
+					if t := in.pk.TypesInfo.TypeOf(y.X); t != nil {
+						if _, isPtr := t.Underlying().(*types.Pointer); isPtr {
+							return // x.f through a pointer x: x itself is not written
+						}
+					}
 					e = y.X
 					continue
 				case *ast.IndexExpr:
+					if t := in.pk.TypesInfo.TypeOf(y.X); t != nil {
+						switch t.Underlying().(type) {
+						case *types.Slice, *types.Map, *types.Pointer:
+							return // element of a slice/map: the variable holding the slice is not written
+						}
+					}
 					e = y.X
 					continue
 				case *ast.StarExpr:
@@ -1881,6 +1892,28 @@ func (in *inliner) inlineCallMode(call *ast.CallExpr, stack []*types.Func, sites
 								if obj.Parent() == types.Universe && (obj.Name() == "true" || obj.Name() == "false") {
 									known, set = true, obj.Name() == "true"
 								}
+							}
+						}
+					}
+					if !known {
+						// a freshly made error / object is known to be non-nil
+						switch y := ast.Unparen(x.Results[thread.sink]).(type) {
+						case *ast.CallExpr:
+							if se, ok := y.Fun.(*ast.SelectorExpr); ok {
+								if pk, ok := se.X.(*ast.Ident); ok {
+									if o, _ := in.origOf(pk).(*ast.Ident); o != nil {
+										if pn, ok := in.pk.TypesInfo.Uses[o].(*types.PkgName); ok {
+											path := pn.Imported().Path()
+											if (path == "fmt" && se.Sel.Name == "Errorf") || (path == "errors" && se.Sel.Name == "New") {
+												known, set = true, true
+											}
+										}
+									}
+								}
+							}
+						case *ast.UnaryExpr:
+							if _, isLit := y.X.(*ast.CompositeLit); isLit && y.Op == token.AND {
+								known, set = true, true
 							}
 						}
 					}
